@@ -292,7 +292,8 @@ def c06(ctx):
 # ---------------------------------------------------------------------------
 # C01 / C07 / C11  the verifier
 
-VERIFY_DEVS = {"PropagationEntryNotVerified", "ExhaustiveVerifierShortCircuit", "FixEntryNotVerified"}
+VERIFY_DEVS = {"PropagationEntryNotVerified", "ExhaustiveVerifierShortCircuit", "FixEntryNotVerified", "InRangePolicyNotSelfVerified",
+               "CodeReviewApprovalNotRevalidated"}
 
 
 def _verify(ctx, pid, fams, limit, invariants):
@@ -344,14 +345,26 @@ def _verify(ctx, pid, fams, limit, invariants):
 
 def c01(ctx):
     q = ctx.quick()
-    fams = [("core", 4 if q else 5, 97 if q else 397), ("recovery", 6 if q else 7, 61 if q else 211), ("global", 5 if q else 6, 97 if q else 397),
+    fams = [("core", 5 if q else 6, 797 if q else 6397), ("recovery", 6 if q else 7, 61 if q else 211), ("global", 5 if q else 6, 97 if q else 397),
             ("nopolicy", 3, 11)]
     return _verify(ctx, "C01", fams, 6000 if q else 60000, ["C01Refines"])
 
 
+def c02(ctx):
+    q = ctx.quick()
+    fams = [("chain", 5 if q else 6, 17 if q else 97)]
+    return _verify(ctx, "C02", fams, 8000 if q else 60000, ["C01Refines", "C02Refines"])
+
+
+def c09(ctx):
+    q = ctx.quick()
+    fams = [("approvals", 4 if q else 5, 5 if q else 23)]
+    return _verify(ctx, "C09", fams, 8000 if q else 60000, ["C01Refines"])
+
+
 def c07(ctx):
     q = ctx.quick()
-    fams = [("recovery", 6 if q else 7, 23 if q else 61), ("core", 4 if q else 5, 211 if q else 797)]
+    fams = [("recovery", 6 if q else 7, 23 if q else 61), ("core", 5 if q else 6, 1597 if q else 9973)]
     return _verify(ctx, "C07", fams, 8000 if q else 80000, ["C07Refines"])
 
 
@@ -361,8 +374,60 @@ def c11(ctx):
     return _verify(ctx, "C11", fams, 8000 if q else 80000, ["C01Refines", "C11Mono"])
 
 
+# ---------------------------------------------------------------------------
+# C13  policy metadata stays well formed under edits, serialisation and migration
+
+META_DEVS = {"AddHookPartialOnError", "DuplicatePrincipalsMeetThreshold"}
+
+
+def c13(ctx):
+    q = ctx.quick()
+    known, asbuilt = devsets("C13")
+    asbuilt = (asbuilt & META_DEVS) | known
+    scns, seen = [], set()
+    for which, maxlen, mod in (("file", 5 if q else 6, 1 if q else 3), ("root", 4 if q else 5, 3 if q else 7)):
+        consts = {"MaxLen": maxlen, "Dev": set(), "Which": '"%s"' % which, "EmitMod": mod, "EmitRes": ctx.seed % mod}
+        model_check(ctx, "MC_Metadata", dict(constants=consts, invariants=["WF", "RefusedUnchanged"], view="View"), timeout=7200)
+        r = run_tlc(ctx, "MC_Metadata", dict(constants=dict(consts, Dev=asbuilt), view="View", constraints=["Emit"]), timeout=7200)
+        if r.error or r.violated:
+            raise Infra("scenario emission failed: %s" % (r.error or r.violated))
+        for x in r.records:
+            k = json.dumps(x, sort_keys=True)
+            if x.get("t") == "SCN" and k not in seen:
+                seen.add(k)
+                scns.append(x)
+    if not scns:
+        raise Infra("TLC emitted no scenarios")
+    scn_path = os.path.join(ctx.scratch, "scn.ndjson")
+    write_ndjson(scn_path, scns)
+    trace = os.path.join(ctx.scratch, "trace.ndjson")
+    run_vh(ctx, ["metadata", "-scn", scn_path, "-out", trace, "-seed", ctx.seed])
+    cls = validate_trace(ctx, "Trace_Metadata", trace, {"Known": known, "AsBuilt": asbuilt})
+    lines = None
+    tally = Tally(ctx)
+    for rec in cls:
+        r = rec["r"]
+        item = None
+        if r["cls"] != "conform":
+            if lines is None:
+                lines = {x["id"]: x for x in read_ndjson(trace)}
+            ln = lines[rec["id"]]
+            item = {"id": rec["id"], "why": r.get("why"), "which": ln["scn"]["which"], "v01": ln["scn"]["v01"],
+                    "edits": ln["scn"]["edits"], "accepted": [st["ok"] for st in ln["steps"]]}
+        tally.add(r["cls"], item, dev=r.get("dev"), nontrivial_key=rec["id"] if rec["n"] > 1 else None)
+    return finish(ctx, tally, samples=[scns[len(scns) // 2]], traces=len(cls),
+                  assumptions=["edit sequences run on tufv02 and tufv01 metadata objects; projections are taken through the "
+                               "query interface (GetRules, GetPrincipals, thresholds, GetGlobalRules, GetHooks) of the live, "
+                               "reloaded (JSON round trip) and migrated objects",
+                               "uniqueness of rule names across rule files (repository API level) and propagation / controller "
+                               "edits are not modelled yet"])
+
+
 CHECKS = {
+    "C13": c13,
     "C01": c01,
+    "C02": c02,
+    "C09": c09,
     "C07": c07,
     "C11": c11,
     "C06": c06,
